@@ -289,6 +289,57 @@ def work_repeat(job):
     return r
 
 
+CONTAINERS = [
+    ('footnote-def', 'call[^cfn]\n\n[^cfn]: %s\n', '    %s\n'),
+    ('list-item', '* %s\n', '    %s\n'),
+    ('loose-item', '* first\n\n* %s\n\n', '    %s\n'),
+    ('quote', '> %s\n', '> %s\n'),
+    ('definition', 'term\n: %s\n', '    %s\n'),
+    ('citation-def', 'cite[#ccn]\n\n[#ccn]: %s\n', '    %s\n'),
+    ('glossary-def', 'gl[?cgl]\n\n[?cgl]: %s\n', '    %s\n'),
+    ('quote-in-item', '* item\n\n    > %s\n', '    > %s\n'),
+]
+
+
+def work_containers(job):
+    """two-line sequences inside containers (a note definition, list item, quote, definition...): the text of every line that must be
+    rendered at top level must still be rendered when the container's content starts with it"""
+    seed, ci, lo, hi = job
+    r = core.JobResult()
+    cname, first, cont = CONTAINERS[ci]
+    firsts = [k for k in range(K) if KINDS[k][2] == ALL and KINDS[k][3] == 0]
+    with core.Session(r) as s:
+        for n in range(lo, hi):
+            k1, k2 = firsts[n // K % len(firsts)], n % K
+            l1 = KINDS[k1][1].replace('@@', '0').replace('\\t', '\t')
+            l2 = KINDS[k2][1].replace('@@', '1').replace('\\t', '\t')
+            src = (first % l1 + (cont % l2 if l2 else '\n')).encode()
+            want = re.findall(r'zq0k\d+x', l1)
+            if KINDS[k2][2] == ALL:
+                want += re.findall(r'zq1k\d+x', l2)
+            for fi, fmt in enumerate(FMTS):
+                if fmt == F['itmz']:
+                    continue
+                if cname == 'glossary-def' and fmt in (F['latex'], F['beamer'], F['memoir']):
+                    continue        # glossary definitions go to the LaTeX preamble (complete documents only): not body text there
+                ext = D.EXT_CLI
+                case = dict(requests=[D.req_to_json('asan', 'CONVERT', fmt, ext, 0, 2 | (1 << 4), [src])])
+                rep = s.call('asan', 'CONVERT', fmt, ext, 0, 2 | (1 << 4), [src], what='[%s: %s + %s]' % (cname, KINDS[k1][0], KINDS[k2][0]), hang_is_violation=True, crash_is_violation=False)
+                r.evaluations += 1
+                r.stats['conversions_in_containers'] += 1
+                if rep is None:
+                    continue
+                judge_reply(r, rep, src, fmt, ext, case, 'container:' + cname)
+                for w in want:
+                    if w.encode() not in rep.out:
+                        r.violate('lost-line:in-%s:%s+%s:%s' % (cname, KINDS[k1][0], KINDS[k2][0], D.FMT_NAME[fmt]), 'the text of a %s line inside a %s is missing from the %s output when a %s line follows it' %
+                                  (KINDS[k1][0] if w.startswith('zq0') else KINDS[k2][0], cname, D.FMT_NAME[fmt], KINDS[k2][0]), case, core.show(src, 300))
+                        break
+            r.distinct.add(core.h64('cont', src))
+            r.sets['containers'].add(cname)
+    return r
+
+
 WWORD = re.compile(rb'(?<![A-Za-z0-9])w\d+(?![A-Za-z0-9])')
 
 
@@ -360,6 +411,9 @@ def main():
     te = sum(K ** l for l in range(1, Le + 1))
     stepe = max(50, te // 64)
     chk.run_jobs(work_eof, [(chk.seed, lo, min(te, lo + stepe), Le) for lo in range(0, te, stepe)])
+    nfirst = len([k for k in range(K) if KINDS[k][2] == ALL and KINDS[k][3] == 0])
+    tot = nfirst * K
+    chk.run_jobs(work_containers, [(chk.seed, ci, lo, min(tot, lo + 200)) for ci in range(len(CONTAINERS)) for lo in range(0, tot, 200)])
     nd = chk.scale(1600, 60000)
     chk.run_jobs(work_docs, [(chk.seed, lo, min(nd, lo + 25)) for lo in range(0, nd, 25)])
     counts = gen.REPEAT_COUNTS if chk.thorough else [100, 999, 1000, 1100, 2000]
